@@ -1,5 +1,6 @@
 """C08 — timed waits never fire early, never hang, fire promptly (structural clauses)."""
 from lib import *
+from props import shared
 from props.shared import *
 import rnum
 from props import numrules
@@ -18,6 +19,7 @@ TL = "may::timeout_list"
 
 def check(ctx):
     numrules.duration_rules(ctx)
+    shared.park_deadline_sampled_before_arm(ctx)
     # ---- deadline loops
     now_ge = lambda a: a.kind == "call" and a.truth is True and re.fullmatch(r".*PartialOrd.*::ge|std::cmp::PartialOrd::ge", a.name or "") is not None
     RMU = "may::sync::mpsc::Receiver::recv_max_until"
@@ -135,6 +137,33 @@ def check(ctx):
             ctx.ob("R-SLOT", TT + "::run", "timer-thread/no-park-without-fresh-schedule", not bad,
                    "between publishing the wake-up handle and parking the timer thread recomputes the next expiry" if not bad else
                    "the timer thread can park on an expiry computed BEFORE it published its wake-up handle: a timer added in the gap is slept through", f.where((bad or sorted(parks))[0]))
+    # (seed C08-4) the timer heap holds one entry per interval list; the entry is (re)installed by the consumer while the list is
+    # non-empty, or by the producer whose push made it non-empty (is_head). Every push in TimeOutList::add_timer is therefore
+    # followed by install_timer_bh on every path except the one where the push reported `is_head == false`
+    ADDL = TL + "::TimeOutList::add_timer"
+    f = ctx.fn("R-PAIR", ADDL, "list/head-push-installs-heap-entry")
+    if f is not None:
+        PUSHL = Call(r"may_queue::mpsc_list(_v1)?::Queue::push", transitive=False)
+        pushes = sorted(ctx.an.sites(f, PUSHL, "must"))
+        inst = ctx.an.sites(f, Call(re.escape(TL) + "::TimeOutList::install_timer_bh", transitive=False), "must")
+        if len(pushes) < 2 or not inst:
+            ctx.missing("R-PAIR", ADDL, "list/head-push-installs-heap-entry", "pushes=%d install_timer_bh=%d" % (len(pushes), len(inst)))
+        else:
+            def not_head(a):
+                o = a.origin if a.kind == "truth" else None
+                return o is not None and a.truth is False and o[0] == "field" and o[2] == "(tuple)" and o[3] == "1" and simplify(o[1])[0] == "call" and \
+                    re.fullmatch(PUSHL.fn, simplify(o[1])[2] or "") is not None
+            be = ctx.edge_blocker(f, not_head)[0]
+            bad = None
+            for s0 in pushes:
+                r = ctx.an.reach(f, ctx.an.after(f, s0), blocked=inst, blocked_edges=be)
+                ex = [x for x in f.ret_points() if x in r]
+                if ex:
+                    bad = (s0, ctx.an.fmt_path(f, ctx.an.path(f, ctx.an.after(f, s0), ex, blocked=inst, blocked_edges=be))); break
+            ctx.ob("R-PAIR", ADDL, "list/head-push-installs-heap-entry", bad is None,
+                   "each of the %d pushes in TimeOutList::add_timer is followed by install_timer_bh unless the push reported is_head == false" % len(pushes) if bad is None else
+                   "TimeOutList::add_timer can return after a push that became the head of its interval list without install_timer_bh: the list is non-empty but not on "
+                   "the timer heap, its head and every later timer of that interval never fire", f.where(bad[0] if bad else pushes[0]), detail=bad[1] if bad else None)
     slot_waker(ctx, TT + "::add_timer", Call(re.escape(TL) + "::TimeOutList::add_timer"), ao("take", W), "timer-thread/add", "TimerThread::add_timer")
     slot_waker(ctx, TT + "::del_timer", Call(MQ_MPSC + "push", on=TT + ".remove_list"), ao("take", W), "timer-thread/del", "TimerThread::del_timer")
     f = ctx.fn("R-SLOT", TT + "::add_timer", "timer-thread/add-wakes-on-new-head")
